@@ -631,6 +631,23 @@ theorem getitem_sub {α : Type} (v w : Vol α) (s : Ax → Sl) (h : getitem v s 
       simp only [hgeom, sliceGeom] at hka
       exact hr.2.2.2 (k a) hka.1 hka.2
 
+/-! ## the head of `match_geometry` -/
+
+/-- both frames of reference are known and they differ -/
+def forConflict (g h : Geom) : Bool :=
+  match g.frameOfRef, h.frameOfRef with
+  | some a, some b => a != b
+  | _, _ => false
+
+/-- the translated head of `match_geometry` lets the call go on iff there is no frame-of-reference
+conflict and the coordinate systems agree; otherwise it raises RuntimeError -/
+theorem mgHead_spec (g h : Geom) :
+    (forConflict g h = false ∧ g.cs = h.cs ∧ mgHead g.frameOfRef h.frameOfRef g.cs h.cs = .ok true) ∨
+    ((forConflict g h = true ∨ g.cs ≠ h.cs) ∧ mgHead g.frameOfRef h.frameOfRef g.cs h.cs = .error .runtime) := by
+  unfold forConflict mgHead
+  rcases g.frameOfRef with _ | u <;> rcases h.frameOfRef with _ | v <;> simp only [] <;>
+    by_cases hc : g.cs = h.cs <;> (try by_cases huv : u = v) <;> simp_all
+
 /-! ## soundness of `matchGeometry` -/
 
 theorem matchGeometry_ok {α : Type} (src : Vol α) (tgt : Geom) (tol : Rat) (c : α) (r : Vol α)
@@ -641,13 +658,12 @@ theorem matchGeometry_ok {α : Type} (src : Vol α) (tgt : Geom) (tol : Rat) (c 
       matchPlan nv.geom tgt steps tol = .ok pl ∧ matchApply nv pl c = .ok r ∧
       geometryEqual r.geom tgt (some tol) = .ok true := by
   unfold matchGeometry at h
-  by_cases hf : forConflict src.geom tgt = true
-  · rw [if_pos hf] at h; cases h
-  rw [if_neg hf] at h
-  by_cases hc : (src.geom.cs != tgt.cs) = true
-  · rw [if_pos hc] at h; cases h
-  rw [if_neg hc] at h
-  refine ⟨by simpa using hf, by simpa using hc, ?_⟩
+  rcases mgHead_spec src.geom tgt with ⟨hf, hc, hhead⟩ | ⟨_, hhead⟩
+  swap
+  · rw [hhead] at h; cases h
+  rw [hhead] at h
+  simp only [] at h
+  refine ⟨hf, hc, ?_⟩
   cases ha : matchAlign src.geom tgt tol with
   | error e => simp [ha] at h
   | ok ps =>
@@ -1230,9 +1246,15 @@ theorem matchGeometry_complete {α : Type} (src : Vol α) (tgt : Geom) (tol : Ra
       (∀ i, r.geom.shape i = tgt.shape i) := by
   obtain ⟨p, first, st, hp, hst, hdir, hsp, hpos, hcs, hfor⟩ := hr
   unfold matchGeometry
-  have hf : ¬ (forConflict src.geom tgt = true) := by simp [hfor]
-  have hc : ¬ ((src.geom.cs != tgt.cs) = true) := by simp [hcs]
-  rw [if_neg hf, if_neg hc, matchAlign_reach src.geom tgt hwf tol h0 h1 p first st hst hdir hsp]
+  have hhead : mgHead src.geom.frameOfRef tgt.frameOfRef src.geom.cs tgt.cs = .ok true := by
+    rcases mgHead_spec src.geom tgt with ⟨_, _, hh⟩ | ⟨hbad, _⟩
+    · exact hh
+    · rcases hbad with hb | hb
+      · rw [hfor] at hb; cases hb
+      · exact absurd hcs.symm hb
+  rw [hhead]
+  simp only []
+  rw [matchAlign_reach src.geom tgt hwf tol h0 h1 p first st hst hdir hsp]
   simp only []
   obtain ⟨nv, hnv, hg⟩ := permute_step src p hp
   rw [hnv]
